@@ -291,7 +291,7 @@ class Observation:
     pass
 
 
-def build_real(g, budget, cfgs, main_seed, main_kind="rec", start=None, collators=False):
+def build_real(g, budget, cfgs, main_seed, main_kind="rec", start=None, collators=False, pre_batch_size=None):
     """constructs the real InterleavedSampler from a spec; returns (sampler, main_recorder, side_samplers, events, pos)"""
     events = []
     pos = lambda: len(events)
@@ -309,6 +309,15 @@ def build_real(g, budget, cfgs, main_seed, main_kind="rec", start=None, collator
         kw["drop_last_batch_size"] = g["D"]
     if start:
         kw.update(start)
+    if pre_batch_size is not None:
+        # the same config objects were used before by another scheduler with another main batch size (and iterated)
+        other = InterleavedSampler(main_sampler=RecMain(g["M"], g["N"], main_seed + 1, lambda: 0), batch_size=pre_batch_size, configs=configs,
+                                   drop_last=False, epochs=1)
+        for k, _ in enumerate(other):
+            if k > 200:
+                break
+        for s_ in sides:
+            s_.passes = 0
     sampler = InterleavedSampler(**kw)
     return sampler, main, sides, events
 
